@@ -214,6 +214,10 @@ struct Runner {
         return r;
     }
 
+    // A constructor must not depend on what the storage held before: between destroying the old object and
+    // constructing the new one the bytes are overwritten with 0xA5 (C02: uninitialised reads become visible)
+    static void scrub(V& v) { std::memset(static_cast<void*>(&v), 0xA5, sizeof(V)); }
+
     // Runs one op. Returns false when the operation is not provided by this instantiation.
     bool apply(std::string const& op, int o, json const& x, long& ret)
     {
@@ -255,13 +259,13 @@ struct Runner {
             } else if (op == "move_assign") {
                 if constexpr (std::is_move_assignable_v<V>) { v = std::move(src); } else { ok = false; }
             }
-            else if (op == "ctor_default") { v.~V(); new (&v) V(); }
-            else if (op == "ctor_copy") { v.~V(); new (&v) V(src); }
-            else if (op == "ctor_move") { v.~V(); new (&v) V(std::move(src)); }
+            else if (op == "ctor_default") { v.~V(); scrub(v); new (&v) V(); }
+            else if (op == "ctor_copy") { v.~V(); scrub(v); new (&v) V(src); }
+            else if (op == "ctor_move") { v.~V(); scrub(v); new (&v) V(std::move(src)); }
             else if (op == "ctor_range") {
                 typename V::container_type c;
                 for (auto& e : xs) { c.push_back(e); }
-                v.~V();
+                v.~V(); scrub(v);
                 new (&v) V(c);
             } else { ok = false; }
         } else {
@@ -322,7 +326,7 @@ struct Runner {
             } else if (op == "move_assign") {
                 if constexpr (CC) { if constexpr (std::is_move_assignable_v<V>) { v = std::move(src); } else { ok = false; } } else { ok = false; }
             } else if (op == "ctor_default") {
-                v.~V();
+                v.~V(); scrub(v);
                 new (&v) V();
             } else if (op == "ctor_dinit") {
                 // default-initialisation ("V v;") into storage holding arbitrary bytes must give an empty vector
@@ -330,15 +334,15 @@ struct Runner {
                 std::memset(static_cast<void*>(&v), (int)n, sizeof(V));
                 new (&v) V;
             } else if (op == "ctor_n") {
-                if constexpr (requires { V(size_t(1)); }) { v.~V(); new (&v) V((size_t)n); } else { ok = false; }
+                if constexpr (requires { V(size_t(1)); }) { v.~V(); scrub(v); new (&v) V((size_t)n); } else { ok = false; }
             } else if (op == "ctor_fill") {
-                if constexpr (CC) { if constexpr (requires { V(size_t(1), val); }) { v.~V(); new (&v) V((size_t)n, val); } else { ok = false; } } else { ok = false; }
+                if constexpr (CC) { if constexpr (requires { V(size_t(1), val); }) { v.~V(); scrub(v); new (&v) V((size_t)n, val); } else { ok = false; } } else { ok = false; }
             } else if (op == "ctor_range") {
-                if constexpr (CC) { if constexpr (requires { V(xs.data(), xs.data()); }) { v.~V(); new (&v) V(xs.data(), xs.data() + xs.size()); } else { ok = false; } } else { ok = false; }
+                if constexpr (CC) { if constexpr (requires { V(xs.data(), xs.data()); }) { v.~V(); scrub(v); new (&v) V(xs.data(), xs.data() + xs.size()); } else { ok = false; } } else { ok = false; }
             } else if (op == "ctor_copy") {
-                if constexpr (CC) { if constexpr (std::is_copy_constructible_v<V>) { v.~V(); new (&v) V(src); } else { ok = false; } } else { ok = false; }
+                if constexpr (CC) { if constexpr (std::is_copy_constructible_v<V>) { v.~V(); scrub(v); new (&v) V(src); } else { ok = false; } } else { ok = false; }
             } else if (op == "ctor_move") {
-                if constexpr (std::is_move_constructible_v<V>) { v.~V(); new (&v) V(std::move(src)); } else { ok = false; }
+                if constexpr (std::is_move_constructible_v<V>) { v.~V(); scrub(v); new (&v) V(std::move(src)); } else { ok = false; }
             } else if (op == "at") {
                 ret = vh::val_of(v[(size_t)p]);
             } else if (op == "front") {
